@@ -138,6 +138,64 @@ fn run_datetime(data: &[u8], ctx: &mut Ctx) -> CaseResult {
     Ok(())
 }
 
+
+/// `Timestamp::to_system_time(reference)`: documented to return a time that
+/// is congruent to the timestamp modulo 2^32 and within i32 range of the
+/// reference, "can be used to sort Timestamp values" — i.e. the mapping must
+/// respect RFC 1982 order around the reference, also across the 2^32 wrap.
+fn run_systime(data: &[u8], ctx: &mut Ctx) -> CaseResult {
+    use std::time::{Duration, UNIX_EPOCH};
+    let mut u = Unstructured::new(data);
+    let reference: u64 = match pick(&mut u, 8) {
+        0 => [0u64, 1, 0x7FFF_FFFF, 0x8000_0000, 0xFFFF_FFFF, 0x1_0000_0000, 0x1_8000_0000, 0x2_0000_0005][pick(&mut u, 8)],
+        1 | 2 => 1_790_000_000 + (u32_(&mut u) as u64 % 1_000_000),
+        3 | 4 => (1u64 << 32) - 1_000_000 + (u32_(&mut u) as u64 % 2_000_000),
+        _ => u64_(&mut u) % (1u64 << 34),
+    };
+    let ref_mod = (reference % (1 << 32)) as u32;
+    // timestamps: relative to the reference (so that both sides of the
+    // wrap are hit) or absolute
+    let ts = match pick(&mut u, 4) {
+        0 => val(&mut u),
+        _ => ref_mod.wrapping_add(DIFFS[pick(&mut u, DIFFS.len())]).wrapping_add(u32_(&mut u) % 3).wrapping_sub(1),
+    };
+    let off = match pick(&mut u, 3) { 0 => DIFFS[pick(&mut u, DIFFS.len())], _ => u32_(&mut u) % 100_000 };
+    let ts2 = ts.wrapping_add(off);
+    let map = |t: u32| -> Result<u64, Violation> {
+        let st = Timestamp::from(t).to_system_time(UNIX_EPOCH + Duration::from_secs(reference));
+        st.duration_since(UNIX_EPOCH).map(|d| d.as_secs()).map_err(|_| Violation::new("systime:before-epoch", format!("to_system_time({t}, ref {reference}) is before the epoch")))
+    };
+    let half: i128 = 1 << 31;
+    let mut mapped = vec![];
+    for t in [ts, ts2] {
+        let secs = map(t)?;
+        vensure!(secs % (1 << 32) == t as u64, "systime:not-congruent", "to_system_time({t:#x}, ref {reference:#x}) = {secs:#x}, not congruent to the timestamp modulo 2^32");
+        let d = secs as i128 - reference as i128;
+        // nearest representative; the earlier era does not exist before the epoch
+        let ok = d.abs() <= half || (d > half && reference < (1 << 32));
+        vensure!(ok, "systime:not-nearest-era", "to_system_time({t:#x}, ref {reference:#x}) = {secs:#x} is {d} s away from the reference although a representative within 2^31 s exists");
+        mapped.push((t, secs, d));
+    }
+    let wrapped = mapped.iter().any(|m| (m.1 >> 32) != (reference >> 32));
+    if wrapped {
+        ctx.class("systime-other-era-than-reference");
+    }
+    if reference < (1 << 32) {
+        ctx.class("systime-reference-in-era-0");
+    }
+    ctx.nontrivial(&(reference, ts, ts2));
+    ctx.sample(|| format!("reference {reference:#x}, timestamps {ts:#x} / {ts2:#x} -> {:#x} / {:#x}", mapped[0].1, mapped[1].1));
+    // sorting: when both mapped times lie within 2^31 s of each other their
+    // order must be the RFC 1982 order of the timestamps
+    let (a, b) = (mapped[0], mapped[1]);
+    if (a.1 as i128 - b.1 as i128).abs() < half && a.2.abs() < half && b.2.abs() < half {
+        let want = rs::cmp(a.0, b.0);
+        vensure!(want == Some(a.1.cmp(&b.1)), "systime:order-differs-from-rfc1982", "timestamps {:#x} and {:#x} compare {want:?} by RFC 1982 but map to {:#x} and {:#x} (reference {reference:#x})", a.0, b.0, a.1, b.1);
+        ctx.class("systime-order-checked");
+    }
+    Ok(())
+}
+
 /// Exhaustive sweep: for each base a, all 2^32 values of b (thorough) or a
 /// 1/8 slice of the differences plus windows around 0, 2^31 and 2^32 (quick).
 fn extra(opts: &RunOpts, agg: &mut Agg) -> Result<(), (Violation, Vec<u8>)> {
@@ -239,7 +297,7 @@ fn replay_extra(data: &[u8], _ctx: &mut Ctx) -> CaseResult {
 }
 
 fn health(c: &BTreeMap<String, u64>, _t: bool) -> Result<(), String> {
-    for k in ["near-2^31", "straddles-wrap", "date-beyond-2038", "bump-at-boundary", "ixfr-client-behind-across-wrap", "ixfr-client-level", "ixfr-client-ahead", "ixfr-answer-single-soa", "ixfr-answer-transfer", "users-bump-ran", "users-ixfr-ran"] {
+    for k in ["near-2^31", "straddles-wrap", "date-beyond-2038", "bump-at-boundary", "ixfr-client-behind-across-wrap", "ixfr-client-level", "ixfr-client-ahead", "ixfr-answer-single-soa", "ixfr-answer-transfer", "users-bump-ran", "users-ixfr-ran", "systime-other-era-than-reference", "systime-order-checked", "systime-reference-in-era-0"] {
         if c.get(k).copied().unwrap_or(0) < 50 {
             return Err(format!("class {k} starved"));
         }
@@ -255,6 +313,7 @@ pub fn prop() -> Prop {
         subchecks: vec![
             SubCheck::new("pairs", run_pairs, 400_000, 20_000_000, 40),
             SubCheck::new("datetime", run_datetime, 60_000, 2_000_000, 16),
+            SubCheck::new("systime", run_systime, 200_000, 6_000_000, 40),
             SubCheck::new("users-bump", users::run_bump, 6_000, 150_000, 200),
             SubCheck::new("users-ixfr", users::run_ixfr, 8_000, 200_000, 300),
             SubCheck::new("extra", replay_extra, 0, 0, 8),
